@@ -126,6 +126,40 @@ def scanner_eda(rep):
                            witness={"prefix": s(pre), "pump": s(pump)}, replayed=timing["exponential"], replay=timing))
 
 
+def flag_table_obligation(rep):
+    """finite, complete: every documented flag name - n included - is a key of the table that keeps flag names out of the
+    names a template demands from the context (Expression / TextTag / DefTag / BlockTag.undeclared_identifiers subtract the
+    table's keys); the table literal is read from filters.py on every run"""
+    import ast as _ast
+    import os
+    t0 = time.time()
+    src = open(os.path.join(os.environ.get("MAKO_REPO", "/repo"), "mako", "filters.py")).read()
+    keys = None
+    for node in _ast.walk(_ast.parse(src)):
+        if isinstance(node, _ast.Assign) and any(isinstance(tg, _ast.Name) and tg.id == "DEFAULT_ESCAPES" for tg in node.targets) and isinstance(node.value, _ast.Dict):
+            keys = [k.value for k in node.value.keys if isinstance(k, _ast.Constant)]
+    documented = ["x", "h", "u", "trim", "entity", "unicode", "str", "n"]
+    fn = "mako.filters:DEFAULT_ESCAPES"
+    if keys is None:
+        rep.add(Result("C02.flag-table", UNDECIDED, klass="L", function=fn, output="DEFAULT_ESCAPES is no longer a dict literal in filters.py"))
+        return
+    missing = [f for f in documented if f not in keys]
+    if missing:
+        w = {"missing_flags": missing, "template": "${v | %s}" % missing[0], "how": "rendered with strict_undefined=True the flag name is looked up in the context: NameError"}
+        replayed = False
+        try:
+            from mako.template import Template
+            Template(w["template"], strict_undefined=True).render_unicode(v="x")
+        except NameError as e:
+            replayed, w["raised"] = True, "NameError: %s" % e
+        except Exception as e:
+            w["raised"] = "%s: %s" % (type(e).__name__, e)
+        rep.add(Result("C02.flag-table", VIOLATED, klass="P", backend="finite-table", function=fn, detail="documented flag(s) %r are not keys of DEFAULT_ESCAPES: a template using them demands them from the context" % missing,
+                       witness=w, replayed=replayed, replay=w, time_s=time.time() - t0))
+    else:
+        rep.add(Result("C02.flag-table", DISCHARGED, klass="P", backend="finite-table", function=fn, detail="all 8 documented flag names are keys of the table", time_s=time.time() - t0))
+
+
 def bounded(rep, tier):
     from vrf.bounded import filter_grid as G
     for oid, cases, fn, bound, what in (
@@ -155,6 +189,7 @@ def run(rep, tier):
                "str % tuple and str.join are uninterpreted injective-agnostic functions: the proof shows the same function applied to the same operands, not the characters produced")
     run_pyvc(rep, KEYS, native_limit=0)
     regex_obligations(rep)
+    flag_table_obligation(rep)
     scanner_eda(rep)
     bounded(rep, tier)
     link_bounded_witness(rep)
